@@ -115,8 +115,8 @@ func init() {
 			"(raw string with escaped and with preserved backslashes; JSON literal minimal / all \\\\uXXXX incl. surrogate pairs / short escapes, inside an array, with JSON whitespace; quoted identifier in three spellings as a key, after a dot and as a multi-select hash key) " +
 			"and must compile and evaluate to exactly that string or select exactly that member; every JSON value of depth <= 2 over the number/string spelling alphabet is written between backticks and must evaluate to that value with the number text preserved; " +
 			"non-trivial = a non-empty string; distinct_nontrivial counts distinct strings among them",
-		Phases: []core.Phase{{Name: "roundtrip", Build: "pristine", Fn: c16Run}},
-		Judge:  c16Judge,
+		Phases:      []core.Phase{{Name: "roundtrip", Build: "pristine", Fn: c16Run}},
+		Judge:       c16Judge,
 		Assumptions: []string{"the escaping rules are those of the grammar: \\' and \\\\ in raw strings, JSON escapes in quoted identifiers and JSON literals, \\` for a backtick inside a literal"},
 	})
 }
@@ -175,7 +175,9 @@ func c16Run(r *core.Run) {
 				}
 			}
 			if n%4001 == 0 {
-				r.Sample(func() any { return map[string]any{"string": s, "spellings": len(c16Spellings(s)), "first": c16Spellings(s)[0].Expr} })
+				r.Sample(func() any {
+					return map[string]any{"string": s, "spellings": len(c16Spellings(s)), "first": c16Spellings(s)[0].Expr}
+				})
 			}
 		}
 		if l == maxLen {
@@ -186,6 +188,32 @@ func c16Run(r *core.Run) {
 		}
 	}
 	rec("", 0)
+	// lone surrogate escapes followed by a tail: the decoder may reject the identifier or substitute U+FFFD,
+	// but it must not swallow or reinterpret the characters that follow
+	tailAlpha := []string{"a", "u", "0", "4", "1", "D", "E", `\\`, `\u`, `\uDE00`, "x"}
+	tailLen := 5
+	if r.Thorough() {
+		tailLen = 6
+	}
+	r.Bound("lone_surrogate_tail_alphabet", tailAlpha)
+	r.Bound("lone_surrogate_tail_length", tailLen)
+	m := 0
+	var tails func(t string, l int)
+	tails = func(t string, l int) {
+		m++
+		if r.Mine(m) && !r.Expired() {
+			if v := c16CheckLone(r, t); v != nil {
+				r.Violate(v)
+			}
+		}
+		if l == tailLen {
+			return
+		}
+		for _, ch := range tailAlpha {
+			tails(t+ch, l+1)
+		}
+	}
+	tails("", 0)
 	// JSON values
 	vals := jsonDocs(c16Atoms, []string{"k", "`"}, 2, 2)
 	r.Bound("json_values", len(vals))
@@ -227,7 +255,42 @@ func c16CheckValue(r *core.Run, v string, ws bool) *core.Violation {
 		Point: map[string]any{"value": v, "ws": ws, "expr": expr, "doc": "null"}, Expected: "ok " + core.ToJSONText(want), Actual: o.Short() + " " + core.ToJSONText(o.Raw)}
 }
 
+// c16CheckLone judges `"\uD83D<tail>"` as a key: a syntax error, or the member
+// named U+FFFD followed by the JSON decoding of the tail.
+func c16CheckLone(r *core.Run, tail string) *core.Violation {
+	expr := `"\uD83D` + tail + `"`
+	var decoded string
+	tailValid := json.Unmarshal([]byte(`"`+tail+`"`), &decoded) == nil
+	if strings.HasPrefix(tail, `\uDE00`) || strings.HasPrefix(tail, `\uD`) {
+		return nil // a genuine pair (covered by the spellings above) or another surrogate: not this family
+	}
+	name := "\uFFFD" + decoded
+	d := map[string]any{name: json.Number("1")}
+	if name != "\uFFFD" {
+		d["\uFFFD"] = json.Number("2")
+	}
+	o := core.Search(expr, d)
+	r.Eval(o)
+	r.Add("states", 1)
+	r.Add("transitions", 1)
+	if o.Kind == "err" && len(o.Cats) == 1 && o.Cats[0] == "syntax" {
+		return nil
+	}
+	if tailValid && o.Kind == "ok" && core.EqualFast(o.Val, core.Norm(json.Number("1"))) {
+		return nil
+	}
+	exp := "error[syntax]"
+	if tailValid {
+		exp += " or the member named " + fmt.Sprintf("%q", name)
+	}
+	return &core.Violation{Sig: "C16/lone-surrogate-escape/" + o.Kind, Desc: fmt.Sprintf("Search(%q, %s)", expr, core.ToJSONText(d)),
+		Point: map[string]any{"tail": tail, "expr": expr, "doc": core.ToJSONText(d)}, Expected: exp, Actual: o.Short()}
+}
+
 func c16Judge(r *core.Run, phase string, pt map[string]any) *core.Violation {
+	if _, ok := pt["tail"]; ok {
+		return c16CheckLone(r, pstr(pt, "tail"))
+	}
 	if v := pstr(pt, "value"); v != "" {
 		return c16CheckValue(r, v, pbool(pt, "ws"))
 	}
